@@ -246,7 +246,10 @@ Definition ex_authsys (k : N) : authsys := mkAuthSys 77 [104; 111; 115; 116; 0] 
 Example C13_authsys_ok_witness : authsys_ok (ex_authsys 16).
 Proof.
   unfold authsys_ok, u32. cbn [ex_authsys a_stamp a_machine a_uid a_gid a_gids].
-  repeat split; try (vm_compute; discriminate). vm_compute. repeat constructor.
+  split; [reflexivity|]. split; [vm_compute; discriminate|]. split; [reflexivity|]. split; [reflexivity|].
+  split; [vm_compute; discriminate|].
+  unfold ex_bytes. cbn [N.to_nat Pos.to_nat Pos.iter_op Nat.add repeat].
+  repeat (constructor; [reflexivity|]). constructor.
 Qed.
 Example C13_authsys_boundary :
   out_eqb authsys_eqb (parse_authsys (enc_authsys (ex_authsys 15) ++ [1])) (Ok (ex_authsys 15), [1], [Al 5; Al 60]) &&
